@@ -13,7 +13,7 @@ AnnP(s, t) == Len(t.ann) > Len(s.ann) =>
                  /\ Len(t.ann) = Len(s.ann) + 1 /\ Len(t.chain) = Len(s.chain) + 1
                  /\ Last(t.ann) = Len(t.chain) /\ Last(t.annb) = Last(t.chain)
 ConvP(i) == (Tr[i].fin /\ ~Tr[i].adv) => ConvergedP(St(i))
-PanicP(i) == Tr[i].skip = "" \/ SubSeq(Tr[i].skip, 1, 5) # "PANIC"
+PanicP(i) == ~(Len(Tr[i].skip) >= 5 /\ SubSeq(Tr[i].skip, 1, 5) = "PANIC")
 QuietP(i) == Tr[i].fin => (St(i).net = <<>> /\ St(i).out = <<>> /\ St(i).infl.pc = "idle")
 
 F(name, X) == {<<name, i>> : i \in X}
